@@ -89,7 +89,7 @@ def cases(rng, tier):
 		yield ('seq', (('S', bad, b'v'),))
 		yield ('seq', (('R', bad + b': v'),))
 		yield ('seq', (('A', bad, b'v'),))
-	n = 60000 if tier == 'thorough' else 3000
+	n = 60000 if tier == 'thorough' else 8000
 	for _ in range(n):
 		names = [gen_name(rng) for _ in range(rng.randrange(1, 5))]
 		ops = []
